@@ -44,7 +44,7 @@ pub(crate) fn align_edge_points(
         let Some(edge) = segment.edge(edges) else {
             continue;
         };
-        let delta = edge.pos - edge.opos;
+        let delta = edge.pos.wrapping_sub(edge.opos);
         let mut point_ix = segment.first();
         let last_ix = segment.last();
         loop {
@@ -106,14 +106,22 @@ pub(crate) fn align_strong_points(outline: &mut Outline, axis: &mut Axis) -> Opt
         let edge = edges.first()?;
         let delta = edge.fpos as i32 - u;
         if delta >= 0 {
-            store_point(point, dim, edge.pos - (edge.opos - ou));
+            store_point(
+                point,
+                dim,
+                edge.pos.wrapping_sub(edge.opos.wrapping_sub(ou)),
+            );
             continue;
         }
         // Is the point after the last edge?
         let edge = edges.last()?;
         let delta = u - edge.fpos as i32;
         if delta >= 0 {
-            store_point(point, dim, edge.pos + (ou - edge.opos));
+            store_point(
+                point,
+                dim,
+                edge.pos.wrapping_add(ou.wrapping_sub(edge.opos)),
+            );
             continue;
         }
         // Find enclosing edges; for a small number of edges, use a linear
@@ -174,7 +182,7 @@ pub(crate) fn align_strong_points(outline: &mut Outline, axis: &mut Axis) -> Opt
             store_point(
                 point,
                 dim,
-                before_pos.wrapping_add(fixed_mul(u - before_fpos, scale)),
+                before_pos.wrapping_add(fixed_mul(u.wrapping_sub(before_fpos), scale)),
             );
         }
     }
